@@ -190,19 +190,20 @@ def signal_worker(k):
             ocp2.set_der(xs[-1], uu)
             ocp2.add_objective(ocp2.at_tf(xs[0]) ** 2)
             ocp2.subject_to(-100 <= (uu <= 100))
-            ocp2.method(rockit.SplineMethod(N=N))
+            ocp2.method(rockit.SplineMethod(N=N, grid=rockit.GeometricGrid(2.0)) if k.get("geo") else rockit.SplineMethod(N=N))
             ocp2.solver("ipopt", {"ipopt.print_level": 0, "print_time": False})
+            tcn = ocp2.sample(xs[0], grid="control")[0]
             tg, cg = ocp2.sample(xs[0], grid="gist")
             tt, vv = ocp2.sample(xs[0], grid="control", refine=r)
             tu, vu = ocp2.sample(uu, grid="control", refine=r)
             tgu, cgu = ocp2.sample(uu, grid="gist")
             opti2 = ocp2._method.opti
             xsym = opti2.x
-            f = ca.Function("f", [xsym], [ca.vec(tg), ca.vec(cg), ca.vec(tt), ca.vec(vv), ca.vec(vu), ca.vec(cgu)])
+            f = ca.Function("f", [xsym], [ca.vec(tg), ca.vec(cg), ca.vec(tt), ca.vec(vv), ca.vec(vu), ca.vec(cgu), ca.vec(tcn)])
             rng = np.random.RandomState(k["N"] * 7 + k["d"])
             xval = np.round(rng.uniform(-2, 2, xsym.numel()) * 8) / 8
             vals = [np.array(v).reshape(-1).tolist() for v in f(xval)]
-            out["sm"] = {"L": L, "gist_t": vals[0], "gist_c": vals[1], "t": vals[2], "v": vals[3], "u": vals[4], "gist_u": vals[5],
+            out["sm"] = {"L": L, "gist_t": vals[0], "gist_c": vals[1], "t": vals[2], "v": vals[3], "u": vals[4], "gist_u": vals[5], "tc": vals[6],
                          "rows": int(opti2.g.numel())}
     except Exception as e:
         out["error"] = "%s: %s" % (type(e).__name__, str(e)[:300])
@@ -247,6 +248,11 @@ def judge_signal(k, r):
     sm = r["sm"]
     L = sm["L"]
     dd = L
+    # knots of the SplineMethod trajectory: the (possibly non-uniform) control grid, normalised
+    xi = [(t - t0) / T for t in sm["tc"]]
+    if len(xi) != N + 1 or abs(xi[0]) > 1e-12 or abs(xi[-1] - 1) > 1e-12 or any(b <= a for a, b in zip(xi, xi[1:])):
+        return [{"what": "SplineMethod: the control grid is not an increasing partition of [t0, t0+T] with N intervals", "times": sm["tc"]}]
+    xi[0], xi[-1] = 0.0, 1.0
     kn = [xi[0]] * dd + xi + [xi[-1]] * dd
     cg = sm["gist_c"]
     if len(cg) != N + dd:
@@ -343,7 +349,7 @@ def run(tier="quick", seed=0, jobs=16):
         else:
             nontriv.add(sha(k))
     nsig = 24 if tier == "quick" else 200
-    sig = [dict(k, xi=[jq(Fraction(i, k["N"])) for i in range(k["N"] + 1)]) for k in ks[:nsig]]
+    sig = [dict(k, xi=[jq(Fraction(i, k["N"])) for i in range(k["N"] + 1)], geo=(j % 2 == 1)) for j, k in enumerate(ks[:nsig])]
     with mp.get_context("fork").Pool(min(jobs, len(sig))) as pool:
         rs = pool.map(signal_worker, sig, chunksize=1)
     for k, r in zip(sig, rs):
